@@ -198,7 +198,7 @@ def run_case(case, ctx):
 def stages(tier):
     q = tier == "quick"
     return [
-        HypStage("k1-exhaustive", conc_case, examples=3 if q else 20, shards=8 if q else 16),
+        HypStage("k1-exhaustive", conc_case, examples=3 if q else 40, shards=8 if q else 16),
         HypStage("random-k4", lambda: conc_case(with_schedule=True), examples=200 if q else 3000, shards=4 if q else 8),
-        HypStage("k1-cold", lambda: conc_case(with_schedule="cold"), examples=1 if q else 5, shards=4 if q else 8),
+        HypStage("k1-cold", lambda: conc_case(with_schedule="cold"), examples=1 if q else 10, shards=4 if q else 8),
     ]
